@@ -59,6 +59,12 @@ K_HARNESSES = {
                               "entries sorted by strictly increasing byte offset <= file length", "counter start >= 1",
                               "no injected failures in this harness"],
         bound="as u_insert without failures"),
+    "u_insert_utf8": dict(
+        functions=[GEN + "::InsertReferencesProcessor::map"],
+        stubs=4, assumptions=[DESUGAR, FS_MODEL, TOKEN_STUB, TEMP_STUB, UNLINK_STUB, LOG_NOTE, TRACING,
+                              "entries sorted by strictly increasing byte offset <= file length, on character boundaries", "counter start >= 1",
+                              "no injected failures in this harness"],
+        bound="as u_insert_content, with one two-byte character (U+00E9) at a symbolic offset: byte offsets and character counts differ"),
     "u_insert_faults": dict(
         functions=[GEN + "::InsertReferencesProcessor::map"],
         stubs=3, assumptions=[DESUGAR, FS_MODEL, TOKEN_STUB, TEMP_STUB, UNLINK_STUB, LOG_NOTE, TRACING,
@@ -108,8 +114,9 @@ K_HARNESSES = {
     "u_ctx_write": dict(
         module="verif_context",
         functions=["src/config/context.rs::Context::cache_next_reference_id"],
-        stubs=5, assumptions=["std::path::Path::join, serde_yaml::to_string and std::fs::{write, remove_file, rename} stubbed (lock model records the value)"],
-        bound="use_cache on/off, any u32 id"),
+        stubs=6, assumptions=["std::path::Path::join, serde_yaml::to_string and std::fs::{write, remove_file, rename} stubbed (lock model records the value); "
+                              "Path::exists stubbed: a lock file may or may not be there already"],
+        bound="use_cache on/off, any u32 id, lock present or absent"),
     "u_find": dict(
         module="verif_finder",
         functions=["src/codegen/finder.rs::CodeFinder::find (real code, with std's Path::extension, OsStr/str conversions and Vec<String>::contains compiled from source)"],
@@ -197,11 +204,11 @@ def obligations(prop, tier):
     q = {
         "C01": [K("u_nextid"), K("u_insert"), K("d_generate"), KD("u_extract", 3)],
         "C02": [K("u_insert"), K("d_generate"), K("d_generate_kill"), K("u_ctx_write")],
-        "C03": [K("u_insert"), K("u_insert_unordered"), K("u_load")],
+        "C03": [K("u_insert"), K("u_insert_utf8"), K("u_insert_unordered"), K("u_load")],
         "C04": [K("u_count"), K("d_check"), K("u_pr"), K("u_load"), K("u_ctx_read")],
         "C05": [K("u_count"), K("u_nextid"), K("u_insert"), K("u_insert_reduce"), K("d_check"), K("u_pr")],
         "C06": [K("d_generate"), K("u_count"), K("u_nextid"), K("u_insert")],
-        "C07": [K("u_insert"), K("u_insert_unordered")],
+        "C07": [K("u_insert"), K("u_insert_utf8"), K("u_insert_unordered")],
         "C08": [K("u_insert"), K("u_insert_reduce"), K("d_generate")],
         "C15": [K("d_generate"), FIND(1, 4, 2, 2), FIND(1, 3, 1, 2), KB("u_setup_context", "len4", {"FLEN": 4}), KB("u_ctx_new", "dir2-src1", {"DIRLEN": 2, "SRCLEN": 1}),
                 KB("u_ctx_new", "dir1-src2", {"DIRLEN": 1, "SRCLEN": 2}), KB("u_ctx_write_path", "dir2", {"DIRLEN": 2}),
